@@ -7,6 +7,7 @@ import (
 	"bufio"
 	"fmt"
 	"io"
+	"os"
 	"os/exec"
 	"strconv"
 	"strings"
@@ -921,6 +922,8 @@ func (s *Solver) Assert(t *Term) {
 	s.send("(assert " + r + ")\n")
 }
 
+var slowLog = os.Getenv("SYMGO_SLOW") != ""
+
 type SatResult int
 
 const (
@@ -980,6 +983,20 @@ func (s *Solver) readResult() SatResult {
 func (s *Solver) Check(extra *Term, vars []*Term, wantModel bool) (SatResult, Model) {
 	start := time.Now()
 	defer func() { s.SolveTime += time.Since(start) }()
+	if slowLog {
+		defer func() {
+			if d := time.Since(start); d > 2*time.Second {
+				desc := "pc"
+				if extra != nil {
+					desc = extra.String()
+				}
+				if len(desc) > 400 {
+					desc = desc[:400]
+				}
+				fmt.Fprintf(os.Stderr, "SLOW QUERY %.1fs: %s\n", d.Seconds(), desc)
+			}
+		}()
+	}
 	if qlog != nil {
 		defer func() {
 			if extra == nil {
